@@ -109,17 +109,17 @@ impl Lts for World {
                     Ok((ke2, st)) => match self.api.login_finish(&Blob::n(&self.reqs[0].1), &p.pw, &Blob::n(&ke2), o(&p.ctx), o(&p.idu), o(&p.ids), None) {
                         Ok((fin, sk, _, _)) => {
                             if self.api.slogin_finish(&Blob::n(&st), &Blob::n(&fin)).ok() != Some(sk) {
-                                cx.violate("real-login/failed", "a real login interleaved with fake attempts does not complete".into());
+                                cx.violate("honest-step/real-login", "a real login interleaved with fake attempts does not complete".into());
                             }
                             n.reals += 1;
                         }
                         Err(e) => {
-                            cx.violate("real-login/failed", format!("a real login interleaved with fake attempts fails: {:?}", e));
+                            cx.violate("honest-step/real-login", format!("a real login interleaved with fake attempts fails: {:?}", e));
                             return None;
                         }
                     },
                     Err(e) => {
-                        cx.violate("real-login/error", format!("{:?}", e));
+                        cx.violate("honest-step/real-login", format!("{:?}", e));
                         return None;
                     }
                 }
